@@ -53,7 +53,7 @@ func init() { register(c11{}) }
 func (c11) ID() string    { return "C11" }
 func (c11) Level() string { return "exploration" }
 func (c11) Rule() string {
-	return "one case = a history moving one middleware through passthrough and 1..3 configurations (Reconfigure, Reconfigure(nil), SetDebug); after every step the FULL grid {method in GET,POST,OPTIONS,PUT,HEAD,options} x {Origin absent / zero-length list / \"\" / one value / two values} x {Access-Control-Request-Method likewise} plus seeded extra requests is sent, each with a seeded pre-set response header map and a seeded scripted handler (status, body chunks, Set/Add/Del on arbitrary names incl. Vary and CORS names, header writes after WriteHeader); distinct = distinct plan hash; non-trivial = the history contains both a configured and a passthrough phase, or at least two configurations"
+	return "one case = a history moving one middleware through passthrough and 1..3 configurations (Reconfigure, Reconfigure(nil), SetDebug); after every step the FULL grid {method in GET,POST,OPTIONS,PUT,HEAD,options} x {Origin absent / zero-length list / \"\" / one value / two values} x {Access-Control-Request-Method likewise} plus seeded extra requests is sent, each with a seeded pre-set response header map and a seeded scripted handler (status, body chunks, Set/Add/Del on arbitrary names incl. Vary and CORS names, header writes after WriteHeader); two thirds of the cases go through ONE handler wrapped at creation and kept across the whole history; the handler script is replayed on a deep copy of what the handler saw and compared with the real header map; distinct = distinct plan hash; non-trivial = the history contains both a configured and a passthrough phase, or at least two configurations"
 }
 func (c11) Budget(tier string) (int, time.Duration) {
 	if tier == "thorough" {
